@@ -90,7 +90,7 @@ func (p *Prop) AllRules() []string {
 var (
 	layerRound = []string{"T-ROUND", "T-SETEXP", "ROUNDSHAPE", "STICKY", "ENUM"}
 	layerUops  = []string{"NORM@uadd|usub|umul|uquo|round|setExpAndRound", "MUSTUSE", "SHIFTDIR", "QUOLEN", "LOWCUT", "ROUNDONCE@umul|uquo|uadd|usub", "FX-OWN@uadd|usub|umul|uquo", "CMPSYM@ucmp", "EXP@uadd|usub|umul|uquo|setExpAndRound|round|limitExp", "MUSTFLOW", "SIGN@uadd|usub|umul|uquo"}
-	layerDec   = []string{"CONST", "WORD", "WORDSUM", "DIVCORE", "SIBLING", "SPLITEVEN", "CARRY", "ALIASGUARD", "OVERLAP", "POOL", "INIT", "NORMARG", "DECNORM", "FILL"}
+	layerDec   = []string{"CONST", "WORD", "WORDSUM", "DIVCORE", "SIBLING", "SPLITEVEN", "QHAT", "KLEN", "CARRY", "ALIASGUARD", "OVERLAP", "POOL", "INIT", "NORMARG", "DECNORM", "FILL"}
 	layerArith = []string{"T-ARITH@Add(|Sub(|Mul(|Quo(", "PREC0@Add|Sub|Mul|Quo|Set", "ROUNDONCE@Add|Sub|Mul|Quo|Set", "T-UNARY@Set(|SetPrec("}
 )
 
@@ -103,22 +103,22 @@ func uses(id string, layers ...[]string) {
 
 func init() {
 	initProps()
-	uses("C01", layerDec, []string{"FX-OWN@uadd|usub|umul|uquo", "T-ARITH-ALIAS@Add(|Sub(|Mul(|Quo(", "FX-RAW@(*Decimal).Add|(*Decimal).Sub|(*Decimal).Mul|(*Decimal).Quo", "GUARD"})
-	uses("C04", []string{"T-ARITH-ALIAS", "FX-RAW", "NORM", "DECNORM", "FX-IMMUT", "ALIASGUARD", "LOWCUT"})
+	uses("C01", layerDec, []string{"PRECWRAP@SetPrec/clamp", "FX-OWN@uadd|usub|umul|uquo", "T-ARITH-ALIAS@Add(|Sub(|Mul(|Quo(", "FX-RAW@(*Decimal).Add|(*Decimal).Sub|(*Decimal).Mul|(*Decimal).Quo", "GUARD"})
+	uses("C04", []string{"T-ARITH-ALIAS", "FX-RAW", "NORM", "DECNORM", "FX-IMMUT", "ALIASGUARD", "LOWCUT", "OUTPARAM@zero-sign"})
 	uses("C06", []string{"LOWCUT", "MUSTFLOW@remainder", "QUOLEN"})
 	uses("C17", layerRound, layerDec, []string{"T-UNARY@SetPrec(", "NORM", "SIGN@GobDecode", "FX-RBW@GobDecode"})
 	uses("C02", layerRound, layerUops, layerDec, []string{"PRECWRAP@SetInt"})
 	uses("C03", layerRound, layerUops, layerDec, []string{"CTX@.FMA|.apply"})
 	uses("C05", layerRound, layerUops, layerDec, layerArith)
-	uses("C08", layerRound, []string{"T-ARITH", "T-UNARY", "T-CONV", "FX-DEF"})
+	uses("C08", layerRound, []string{"T-ARITH", "T-UNARY", "T-CONV", "FX-DEF", "FX-IMMUT"})
 	uses("C10", []string{"FX-ACC", "FX-DEF", "NORM", "CTX@.Set"})
-	uses("C11", layerRound, layerDec, layerUops, []string{"SHIFTW", "CONST", "SCANSHAPE", "DECNORM@dec.scan|mulAddWW|setWord", "NORM@scan", "T-UNARY@Set(|SetPrec(", "LOWCUT"})
-	uses("C12", layerRound, layerUops, layerDec, []string{"NORM@scan", "FMTSHAPE@infinity"})
+	uses("C11", layerRound, layerDec, layerUops, []string{"SHIFTW", "CONST", "SCANSHAPE", "DECNORM@dec.scan|mulAddWW|setWord", "NORM@scan", "T-UNARY@Set(|SetPrec(", "LOWCUT", "FX-RBW@(*Decimal).scan|(*Decimal).Parse|SetString|UnmarshalText|(*Decimal).Scan", "CTX@NewString"})
+	uses("C12", layerRound, layerUops, layerDec, []string{"NORM@scan", "FMTSHAPE@infinity", "PRECWRAP@SetPrec/clamp"})
 	uses("C13", layerRound, layerDec, []string{"T-UNARY@Set(|SetPrec(", "NORM@Set", "ROUNDONCE@Set"})
-	uses("C14", layerRound, layerUops, layerDec)
-	uses("C15", layerRound, layerUops, layerDec, layerArith)
-	uses("C16", []string{"NORM", "DECNORM", "ROUNDSHAPE", "FX-IMMUT", "FX-OWN", "POOL", "FX-RBW@SetBitsExp", "EXP", "GOB@G2"})
-	uses("C19", layerRound, layerUops, layerDec, layerArith, []string{"T-ARITH", "T-UNARY@Sqrt(", "FX-STICKY@(*Decimal).Sqrt|sqrtInverse", "MODE@Sqrt", "SQRTSHAPE"})
+	uses("C14", layerRound, layerUops, layerDec, []string{"CTX@NewInt|NewUint64|NewRat", "FX-IMMUT@(*Decimal).Int|(*Decimal).Rat|(*Decimal).Uint64|decToNat"})
+	uses("C15", layerRound, layerUops, layerDec, layerArith, []string{"CTX@NewFloat", "FX-RBW@(*Decimal).Quo|(*Decimal).Mul|SetFloat"})
+	uses("C16", []string{"NORM", "DECNORM", "ROUNDSHAPE", "FX-IMMUT", "FX-OWN", "POOL", "FX-RBW@SetBitsExp", "EXP", "GOB@G2", "T-UNARY@SetBitsExp(", "FILL"})
+	uses("C19", layerRound, layerUops, layerDec, layerArith, []string{"T-ARITH", "T-UNARY@Sqrt(", "FX-STICKY@(*Decimal).Sqrt|sqrtInverse", "MODE@Sqrt", "SQRTSHAPE", "PRECWRAP@/clamp", "NORM@SetFloat|SetInt|SetUint64|SetRat", "T-CONV@SetFloat64("})
 	uses("C20", layerRound, layerDec, []string{"NORM@round|setExpAndRound"})
 }
 
@@ -184,8 +184,9 @@ func initProps() {
 		"that prec+2 working digits and the final multiplication give the correctly rounded root (numeric, not applicable)",
 		techCDAI, cdaiAssume, fxAssume)
 	p("C06",
-		[]string{"WORD", "CARRY", "ALIASGUARD", "OVERLAP", "POOL", "INIT", "NORMARG", "FX-GLOBAL@Threshold|decLeafSize|decPool", "CONST@threshold", "FX-IMMUT@dec.|decBasic|decKaratsuba|decAddAt", "DECNORM", "FILL", "SIBLING", "SPLITEVEN"},
+		[]string{"WORD", "CARRY", "ALIASGUARD", "OVERLAP", "POOL", "INIT", "NORMARG", "FX-GLOBAL@Threshold|decLeafSize|decPool", "CONST@threshold", "FX-IMMUT@dec.|decBasic|decKaratsuba|decAddAt", "DECNORM", "FILL", "SIBLING", "SPLITEVEN", "QHAT"},
 		[]string{
+			"QHAT: the product the correction loop of divBasic tests is recomputed from the corrected estimate on every way back into the loop; the normalisation factor of divLarge is base/(top word+1); in divRecursiveStep every decrement of an estimate is behind cmp > 0 (strict) and completed on every way out by the subtraction of the divisor's low part from the product and the give-back of its high part to the dividend, the borrow goes into the upper words exactly where there are any, and the `impossible` panics are behind the strict comparison too.",
 			"WORD: every value stored into a mantissa word and every scalar word handed to a decimal kernel in mul/sqr/div and their helpers is a kernel result, a reduced value, a loaded word or a constant below the base (exceptions tabled with a count); CARRY: every carry/borrow/remainder is consumed except at tabled sites (one more discard fails).",
 			"ALIASGUARD/OVERLAP: result buffers are not reused while they overlap an operand; in-place kernel uses have matching offsets; POOL: scratch buffers are owned exclusively between getDec and putDec; INIT: accumulating routines start from cleared or fully produced buffers (any-range); NORMARG: dec.cmp only sees normalised operands.",
 			"FX-GLOBAL/CONST: the tuning thresholds are written by nobody outside test code and are initialised to constants >= 2; FX-IMMUT: the dec-layer routines never write a source slice.",
@@ -197,19 +198,20 @@ func initProps() {
 		"that Karatsuba, schoolbook and recursive code compute the same product/quotient (arithmetic), buffer-length contracts (len(z) >= 6n), the partial clear in mul, the numeric `impossible` guards: NOT APPLICABLE to static analysis",
 		"provenance dataflow on stored words, use-def of kernel results, dominance of alias guards and initialisers, slice-root analysis", fxAssume)
 	p("C08",
-		[]string{"WORD", "NORM", "EXP", "PREC0", "ENUM", "FX-OWN", "GOB@G2|G4", "SIGN@usub", "DECNORM", "LOWCUT", "ROUNDSHAPE"},
+		[]string{"WORD", "NORM", "EXP", "PREC0", "ENUM", "FX-OWN", "GOB@G2|G4|G9", "SIGN@usub", "DECNORM", "LOWCUT", "ROUNDSHAPE"},
 		[]string{
 			"An inductive invariant over all operation sequences, one clause per rule, the induction step being per exported method: words < base (WORD, and GOB G2 for decoded words); a computed mantissa is normalised and rounded before it can be observed as finite (NORM); the exponent stays within [MinExp, MaxExp] (EXP); finite implies precision > 0 (PREC0 and GOB G2 digits<=prec; GOB G4: a receiver that keeps its own smaller precision gets the decoded value rounded into it through SetPrec, never a plain store of the precision); form, mode and acc hold declared enumerators only (ENUM); each Decimal owns its mantissa array (FX-OWN).",
 			"ROUNDSHAPE: round clears the digits below the precision in the lowest kept word on every finite exit reached after a cut or an increment (also after the all-nines carry).",
+			"GOB G9: no error return of GobDecode lies behind a write to a field of the receiver or into the array of its mantissa (a rejected buffer cannot leave unvalidated words in a finite receiver).",
 		},
 		"`no non-zero digit beyond the precision` (the arithmetic of round's lsd)",
 		"typestate and provenance dataflow on the SSA form, dominance of range tests", fxAssume)
 	p("C07",
-		[]string{"CONST", "ASM", "ASM-PURE", "BUILDTAGS", "FX-IMMUT@_g/|VV/|VW/|VU/|WW/", "OVERLAP", "WORDSUM", "DIVCORE", "FILL@_g|VWlarge"},
+		[]string{"CONST", "ASM", "ASM-PURE", "BUILDTAGS", "FX-IMMUT@_g/|VV/|VW/|VU/|WW/", "OVERLAP", "WORDSUM", "DIVCORE", "FILL@_g|VWlarge", "KLEN"},
 		[]string{
 			"E6-CONST: word-base constants (_DB=10^_DW, _DW, _DWb, _DMax), pow10tab, pow2digitsTab, decMaxPow32/64, pow5tab, the reciprocal constant mP of div10W_g, every pow10DivTab64/32 entry (exact-division criterion proved for every word-sized dividend), layout of struct magic, enumerator equality with math/big.",
 			"E7-ASM: the TEXT symbols of dec_arith_amd64.s are exactly the body-less declarations; every name+off(FP) reference matches the Go signature's frame layout and every result slot is written; #define _DB/_DMax/_DW and the reciprocal immediate equal the Go constants; every memory store goes through R10, loaded exactly once from z+0(FP), or into a result slot (kernels write only their destination); the 4x unrolled bodies of add10VV, sub10VV, add10VW, sub10VW and decCpy equal their tail loop instantiated four times; the three inlined copies of div10W equal div10W.",
-			"ASM-PURE (pure-Go configurations): every kernel wrapper forwards its own parameters in order to the _g twin of the same name and signature; BUILDTAGS: assembly declarations and wrappers are exact complements over all occurring tags, the .s file follows the declarations, nothing else is build-conditional and no code dispatches on the architecture at run time; FX-IMMUT: the portable twins write only their destination slice.",
+			"ASM-PURE (pure-Go configurations): every kernel wrapper forwards its own parameters in order to the _g twin of the same name and signature; BUILDTAGS: assembly declarations and wrappers are exact complements over all occurring tags, the .s file follows the declarations, nothing else is build-conditional and no code dispatches on the architecture at run time; FX-IMMUT: the portable twins write only their destination slice. KLEN: no source vector handed to a decimal vector kernel is definitely shorter than its destination (lengths as linear forms over parameter lengths, slice bounds and make sizes): the assembly kernels run over len(z) alone.",
 			"OVERLAP: census of every in-place kernel call site into the overlap patterns the kernels are written for (same offset for elementwise kernels, safe direction for the shifts).",
 			"WORDSUM: in the portable kernels a word loaded from a vector is added with plain + only to a constant or a 0/1 carry (second result of add10WWW/sub10WWW/bits.Add/bits.Sub); ASM carry/: in the assembly a consumed carry never comes from another carry materialisation (SBBQ R, R), and the hardware carry of `vector word + word parameter` (which can pass 2^64) is read before the flags are overwritten.",
 			"DIVCORE / ASM divcore/: the scalar primitives that reduce a binary double word by the word base do so on every path to a result, in the portable version (every return behind div10W) and in the assembly (no result slot written on a path that avoids the multiplication by the reciprocal); FILL copy-rest: a carry kernel that stops early and copies the rest returns a carry of 0 there; OVERLAP direction/: a shift kernel called with a destination above (below) a possibly aliasing source walks descending (ascending), in both versions.",
@@ -219,11 +221,12 @@ func initProps() {
 		"lints over the assembly text and build constraints, sibling-congruence of unrolled/inlined code sequences, constant/table evaluation (go/types constants + math/big on source constants)", fxAssume)
 	All["C07"].QuickCfgs = []string{"amd64", "purego"}
 	p("C09",
-		[]string{"FX-STICKY", "FX-IMMUT", "FX-OWN", "T-UNARY@Set(|SetInt|SetUint64(|NewDecimal(|Sqrt(", "T-ARITH@prec=[0", "T-CONV@SetFloat64("},
+		[]string{"FX-STICKY", "FX-IMMUT", "FX-OWN", "T-UNARY@Set(|SetInt|SetUint64(|NewDecimal(|Sqrt(", "T-ARITH@prec=[0", "T-CONV@SetFloat64(", "GOB@G9"},
 		[]string{
 			"FX-STICKY: for every function and every *Decimal result parameter, the precision is written only when it was 0, or temporarily and restored on every exit, and the rounding mode never, except in the operations documented to copy attributes (Copy, SetMantExp, MantExp's out-parameter, GobDecode, SetPrec/SetMode themselves, package context); with entry precision 0 every success exit of the setters/operations has assigned it.",
 			"FX-IMMUT: no function writes a field or a mantissa word of a *Decimal parameter that is not its result parameter; FX-OWN: no two Decimals share a mantissa array.",
 			"The value a zero precision takes (max of the operand precisions, 34, 17, x's) is decided by T-ARITH/T-UNARY/T-CONV with enumerated precision orderings.",
+			"GOB G9: a GobDecode that returns an error has not yet stored the decoded precision or mode (no error return behind a write to the receiver).",
 		},
 		"the parse path's default of 34 is checked only as 'assigned on every success exit'",
 		techFX+"; plus E4 tables", cdaiAssume, fxAssume)
@@ -239,9 +242,9 @@ func initProps() {
 		"stale words in a reused mantissa buffer (dec.make does not clear) beyond the INIT rule",
 		techFX+"; plus E4 tables under aliasing", cdaiAssume, fxAssume)
 	p("C11",
-		[]string{"FMTSHAPE@MarshalText|shortest|infinity|exponent-marker|fmtB", "FX-IMMUT@(*Decimal).Append|(*Decimal).Text|(*Decimal).String|(*Decimal).Format|(*Decimal).fmt|(*Decimal).toa|(*Decimal).MarshalText|(*Decimal).bufSizeForFmt", "CONST@pow10tab|decMaxPow", "EXP", "SCANSHAPE@exp-bits|exponent-consumed", "STALE@toa|exp10|Append|Text|bufSizeForFmt|fmt"},
+		[]string{"FMTSHAPE@MarshalText|shortest|infinity|exponent-marker|fmtB|fmtF|/emit|Append/digits", "FX-IMMUT@(*Decimal).Append|(*Decimal).Text|(*Decimal).String|(*Decimal).Format|(*Decimal).fmt|(*Decimal).toa|(*Decimal).MarshalText|(*Decimal).bufSizeForFmt", "CONST@pow10tab|decMaxPow", "EXP", "SCANSHAPE@exp-bits|exponent-consumed", "STALE@toa|exp10|Append|Text|bufSizeForFmt|fmt"},
 		[]string{
-			"FMTSHAPE: MarshalText (hence JSON) calls Append with a constant negative precision in a format Parse reads; on the negative-precision path Append makes no rounding copy; the infinity spelling Append writes is one Parse compares against and the exponent markers of the b and p formats are among those scanExponent accepts.",
+			"FMTSHAPE: MarshalText (hence JSON) calls Append with a constant negative precision in a format Parse reads; on the negative-precision path Append makes no rounding copy; the infinity spelling Append writes is one Parse compares against and the exponent markers of the b and p formats are among those scanExponent accepts. Decision tables (E4 with named unknowns, DESIGN §9f): for every format and precision class Append hands fmtE/fmtF the digit counts strconv prescribes and makes its rounding copy exactly where the requested digit lies inside the digits (Append/digits); the digit writers append the point, the filling zeros, the exponent letter, its sign and the two-digit minimum behind the comparisons that justify them, and print the exponent that belongs to the digits (fmtE|fmtB|fmtP/emit).",
 			"EXP(ii)/(iv): no int32 arithmetic on the exponent in the writers; SCANSHAPE/exp-bits: the reader parses the exponent field as a signed 64-bit integer — fmtE writes x.exp-1 and fmtB x.exp-prec, which fall below MinInt32 for values near MinExp, so a narrower parse cannot read back what the writer produced.",
 			"FX-IMMUT: no formatter writes its operand; CONST: pow10tab and decMaxPow (digit grouping used by both the writer and the reader) equal their mathematical definition.",
 			"STALE: the formatting code reads x.exp and x.mant only where x is known finite (or through helpers called with a finite receiver): the text of a zero or an infinity cannot contain digits or an exponent left over from an earlier value of the variable.",
@@ -253,7 +256,7 @@ func initProps() {
 		[]string{
 			"ERRNIL: on every return (per φ edge) of scan, Parse, SetString, ParseDecimal and the context wrappers a possibly non-nil error comes with the nil *Decimal and a nil error with a non-nil one (SetString: flag true exactly with a non-nil result); Parse reports success only on paths where the reader returned io.EOF after the number (no trailing characters).",
 			"ERRDROP: every error returned by a callee inside the scanners is consumed (the three explicit `_ = r.UnreadByte()` excepted).",
-			"SCANSHAPE: the '_' gate handed to scanExponent is the one dec.scan applies (base == 0); fraction digits of base 2/8/16 mantissas contribute 1/3/4 binary exponent units, base-10 digits one decimal unit.",
+			"SCANSHAPE: the '_' gate handed to scanExponent is the one dec.scan applies (base == 0); fraction digits of base 2/8/16 mantissas contribute 1/3/4 binary exponent units, base-10 digits one decimal unit. scanExponent and scanSign, followed with every byte read as an unknown classified by the path's own comparisons, agree with the grammar of the exponent (letters, optional sign, digits with inner separators) in how many bytes they read, which one they put back, the base and the error (scanExponent/automaton, scanSign/automaton); the decimal and binary exponent contributions of Decimal.scan are the documented linear forms per mantissa and exponent base, applied by Mul/Quo/not at all according to the sign the path knows ((*Decimal).scan/exponents); dec.scan shifts by a whole word only for a chunk base equal to the word base.",
 			"CONST: decMaxPow tables; FX-RBW/PREC0/FX-STICKY/FX-ACC: scan reads nothing of the old receiver, rounds only with an examined precision (34 for 0), keeps the mode, and defines the accuracy.",
 			"DECNORM: dec.scan returns a normalised mantissa on every path (also when whole words of leading zeros were shifted in).",
 			"SHIFTW: pow2 (the scale factor of a literal with a binary exponent) shifts 1 << n only behind n < width.",
@@ -262,9 +265,9 @@ func initProps() {
 		"rounding of long literals, accuracy of the binary-exponent path (pow2), and agreement of the accepted language with math/big (would need the upstream source as a frozen reference); the separator automata of dec.scan/scanExponent",
 		"nil-ness facts from dominating branch edges on the SSA form, per return and φ edge; use-def checks on error results; shape rules on the radix switch", fxAssume)
 	p("C13",
-		[]string{"FMTSHAPE@Append|Format|fmtB", "FX-IMMUT@(*Decimal).Append|(*Decimal).Text|(*Decimal).String|(*Decimal).Format|(*Decimal).fmt|(*Decimal).toa", "LOWCUT", "STALE@toa|exp10|Append|Text|bufSizeForFmt|fmt", "WORKPREC@Append"},
+		[]string{"FMTSHAPE@Append|Format|fmtB|fmtF|/emit|writeMultiple", "FX-IMMUT@(*Decimal).Append|(*Decimal).Text|(*Decimal).String|(*Decimal).Format|(*Decimal).fmt|(*Decimal).toa", "LOWCUT", "STALE@toa|exp10|Append|Text|bufSizeForFmt|fmt", "WORKPREC@Append"},
 		[]string{
-			"FMTSHAPE: with an explicit precision Append rounds a fresh copy (never x) that was given x's rounding mode; the precision it requests must be provably non-zero (0 means `keep the operand's precision`, i.e. no rounding) — this obligation FAILS on the pinned tree and is the known finding F12; Format has a case for every documented verb (e E f F g G b p v s) and consults the flags + space 0 - and width/precision.",
+			"FMTSHAPE: with an explicit precision Append rounds a fresh copy (never x) that was given x's rounding mode; the precision it requests must be provably non-zero (0 means `keep the operand's precision`, i.e. no rounding) — this obligation FAILS on the pinned tree and is the known finding F12; Format has a case for every documented verb (e E f F g G b p v s) and consults the flags + space 0 - and width/precision. Format's decision table (E4): every verb maps to the format byte and default precision fmt documents for floats (an unknown verb gives one %!verb report and nothing else), and for every combination of the four flags, first byte of the text, width class and infinity the sign, the split-off sign byte, the padding and the order of the writes are those of the fmt layout (Format/verb, Format/layout); Append/digits and the emit clauses as under C11.",
 			"FX-IMMUT: formatting never writes its operand.",
 			"STALE: every read of x.exp / x.mant in the formatting path is behind a finiteness test (the exponent thresholds of %g/%f applied to a zero use 0, not the exponent of whatever finite value the variable held before, DESIGN §5 F20).",
 			"WORKPREC: the rounding copy made by Append takes the requested digit count, not a MinPrec()-derived one.",
@@ -272,9 +275,9 @@ func initProps() {
 		"digit counts, %g exponent thresholds, padding and layout: NOT APPLICABLE to static analysis (arithmetic on run-time lengths); thin necessary-condition claim only",
 		"shape rules on the SSA form of Append/Format (receiver chain of the rounding copy, dominance of the precision test, lower-bound reasoning on the requested precision)", fxAssume)
 	p("C14",
-		[]string{"T-CONV@Int64(|Uint64(|Int(|Rat(", "T-UNARY@SetInt|SetUint64(|NewDecimal(|MinPrec(|IsInt(", "FX-STICKY@SetInt|SetUint64|SetRat|setBits64", "PREC0@SetInt|SetUint64|SetRat|setBits64|NewDecimal", "EXP@setBits64|SetInt|limitExp", "NORM@setBits64|SetInt", "MUSTFLOW@setBits64|SetInt", "SIGN@SetInt|setBits64", "OUTPARAM@Int/|Rat/", "NATLEN", "ROUNDONCE@SetRat|SetInt|setBits64", "FX-DEF@SetInt|SetUint64|SetRat|setBits64", "STALE@Int|Uint64|Rat|intMant", "FILL@setNat|setUint64", "PRECWRAP@SetInt"},
+		[]string{"T-CONV@Int64(|Uint64(|Int(|Rat(", "T-UNARY@SetInt|SetUint64(|NewDecimal(|MinPrec(|IsInt(", "FX-STICKY@SetInt|SetUint64|SetRat|setBits64", "PREC0@SetInt|SetUint64|SetRat|setBits64|NewDecimal", "EXP@setBits64|SetInt|limitExp", "NORM@setBits64|SetInt", "MUSTFLOW@setBits64|SetInt", "SIGN@SetInt|setBits64", "OUTPARAM@Int/|Rat/", "NATLEN", "ROUNDONCE@SetRat|SetInt|setBits64", "FX-DEF@SetInt|SetUint64|SetRat|setBits64", "STALE@Int|Uint64|Rat|intMant", "FILL@setNat|setUint64|decToNat", "PRECWRAP@SetInt"},
 		[]string{
-			"T-CONV: Int64/Uint64/Int/Rat for ±0, ±Inf and finite values by exponent class give the documented saturation values and accuracies.",
+			"T-CONV: Int64/Uint64/Int/Rat for ±0, ±Inf and finite values by exponent class give the documented saturation values and accuracies. OUTPARAM also: a nil z is never dereferenced (the parameter is a receiver only behind a non-nil test) and Rat writes the numerator on every path. T-UNARY NewDecimal: the magnitude handed on is |x|. CTX(T6): the factories of the context package are c.New().SetX(x) of the argument as given on every way out.",
 			"T-UNARY: SetInt/SetInt64/SetUint64/NewDecimal set the sign before rounding, +0 for a zero argument, keep a non-zero precision and choose the documented default otherwise; MinPrec/IsInt special cases.",
 			"FX-STICKY/PREC0 for the integer setters.",
 			"EXP(iii): NewDecimal's caller-supplied exponent is clamped before it enters the int64 sum (saturation to ±0/±Inf instead of wrap-around); NORM/MUSTFLOW/SIGN for the integer setters.",
@@ -287,9 +290,9 @@ func initProps() {
 		"exactness of the radix conversions and of SetInt's precision estimate (numeric)",
 		techCDAI, cdaiAssume, fxAssume)
 	p("C15",
-		[]string{"T-CONV@SetFloat", "FX-RBW@SetFloat", "FX-STICKY@SetFloat", "OUTPARAM@Float/", "PRECWRAP@SetFloat", "NATLEN", "STALE@Float", "SHIFTW", "WORKPREC"},
+		[]string{"T-CONV@SetFloat|Float32 |Float64 ", "FX-RBW@SetFloat", "FX-STICKY@SetFloat", "OUTPARAM@Float/", "PRECWRAP@SetFloat|pow2", "NATLEN", "STALE@Float", "SHIFTW", "WORKPREC"},
 		[]string{
-			"T-CONV: SetFloat64 and SetFloat dispatch on the ARGUMENT's class: NaN -> ErrNaN, ±0 and ±Inf map to themselves with the argument's sign and Exact accuracy, a finite value enters the scaling arithmetic with the argument's sign and is rounded last with the receiver's precision.",
+			"T-CONV: SetFloat64 and SetFloat dispatch on the ARGUMENT's class: NaN -> ErrNaN, ±0 and ±Inf map to themselves with the argument's sign and Exact accuracy, a finite value enters the scaling arithmetic with the argument's sign and is rounded last with the receiver's precision; Float32/Float64 return the accuracy of the big.Float -> float step, and that of the Decimal -> big.Float step exactly when the second step was exact.",
 			"FX-RBW: neither reads the receiver's previous form/sign; FX-STICKY: the temporary precision increment is undone on every exit.",
 			"T-CONV (guard digit): the scaling Mul/Quo by 2**n runs at a precision strictly above the final one (otherwise the value is rounded twice). OUTPARAM: a caller-supplied *big.Float is completely redefined on every exit of Float that returns it. PRECWRAP: the temporary extra digit is taken only on a path where prec < MaxPrec holds (z.prec++ at MaxPrec wraps to 0: F18, fixed).",
 			"NATLEN: Float/Float64/Float32 go through decToNat: its word count formula leaves room for the largest integer of the operand's digit count.",
@@ -318,6 +321,7 @@ func initProps() {
 			"G4: a receiver whose precision was not 0 gets its precision and mode back (every success exit passes the restoring block, which calls SetPrec(oldPrec), i.e. rounds); G5: the version is tested before anything is decoded.",
 			"MODE: in GobDecode the receiver's own rounding mode is back in force before SetPrec rounds the decoded value into the receiver's precision (a mode written after the rounding call means the sender's mode did the rounding); LOWCUT: GobEncode encodes the top (most significant) words of the mantissa, never a prefix m[:n]. PRECWRAP: the number of words to encode is not computed in uint32 from the precision (it wrapped to 0 near MaxPrec: F17, fixed).",
 			"STALE: GobEncode reads exponent and mantissa of a finite x only, so the encoding of a zero or infinity does not depend on earlier contents.",
+			"G6/G7: the byte helpers index a byte slice at v-c only behind v >= c (or in a counted descent from len(buf)), and store only bytes of mantissa words; G8: every successful return of GobDecode has defined form and sign of the receiver — the empty encoding (a nil or default value on the other side) is the value 0, not whatever the receiver held; G9: no error return lies behind a write to the receiver (a rejected buffer leaves value, precision and mode as they were).",
 		},
 		"value equality after a round trip (word order inside dec.bytes/setBytes is loop arithmetic)",
 		"dominance/interval analysis on the SSA form of GobDecode plus sibling agreement with GobEncode", fxAssume)
@@ -340,9 +344,9 @@ func initProps() {
 		"exclusive ownership of pooled scratch buffers between getDec and putDec (POOL rule) and the store targets of the assembly kernels (E7) where not yet listed; equality of concurrent and sequential results beyond 'no shared write'",
 		techFX, fxAssume)
 	p("C20",
-		[]string{"T-UNARY@MantExp(|SetMantExp(", "PREC0@SetBitsExp|SetMantExp|MantExp", "FX-RBW@SetBitsExp|SetMantExp", "FX-RAW@MantExp|SetMantExp", "FX-OWN@BitsExp|SetBitsExp|MantExp|SetMantExp|Copy", "FX-STICKY@SetBitsExp", "EXP@SetBitsExp|SetMantExp|limitExp", "NORM@SetBitsExp", "MUSTFLOW@SetBitsExp", "SIGN@SetBitsExp", "LOWCUT", "FX-DEF@SetBitsExp|SetMantExp", "STALE@MantExp|BitsExp|MinPrec"},
+		[]string{"T-UNARY@MantExp(|SetMantExp(|SetBitsExp(|BitsExp(", "PREC0@SetBitsExp|SetMantExp|MantExp", "FX-RBW@SetBitsExp|SetMantExp", "FX-RAW@MantExp|SetMantExp", "FX-OWN@BitsExp|SetBitsExp|MantExp|SetMantExp|Copy", "FX-STICKY@SetBitsExp", "EXP@SetBitsExp|SetMantExp|limitExp", "NORM@SetBitsExp|top-word", "MUSTFLOW@SetBitsExp", "SIGN@SetBitsExp", "LOWCUT", "FX-DEF@SetBitsExp|SetMantExp", "STALE@MantExp|BitsExp|MinPrec"},
 		[]string{
-			"T-UNARY: MantExp returns 0 and copies form/sign for ±0/±Inf, returns x's exponent and leaves mant with exponent 0 otherwise (also for mant nil and mant = x); SetMantExp copies zeros/infinities without scaling and enters setExpAndRound with exponent(mant)+exp and the sign already set, also for z = mant.",
+			"T-UNARY: MantExp returns 0 and copies form/sign for ±0/±Inf, returns x's exponent and leaves mant with exponent 0 otherwise (also for mant nil and mant = x); SetMantExp copies zeros/infinities without scaling and enters setExpAndRound with exponent(mant)+exp and the sign already set, also for z = mant; SetBitsExp clears the sign before it rounds, gives an all-zero slice the exact value +0 and enters setExpAndRound exactly on the path that found the stripped mantissa non-empty; BitsExp never hands out the stale buffer of a zero or an infinity.",
 			"PREC0: SetBitsExp/SetMantExp never round with precision 0; FX-RBW: nothing of the old receiver is read; FX-RAW: MantExp(x == mant) and SetMantExp(z == mant) have no read-after-write hazard; FX-OWN: the only functions that share a mantissa array with the caller are SetBitsExp and BitsExp (documented).",
 			"EXP(iii)/(iv): the int64 exponent arithmetic of SetBitsExp/SetMantExp cannot wrap before the range check (caller's term clamped, with a clamp in [2^34, 2^62] so that offsets that cancel against the other summand still give the right in-range result); NORM + MUSTFLOW: SetBitsExp strips zero words, normalises, and both corrections reach the exponent.",
 			"FX-DEF: SetBitsExp/SetMantExp define form and sign on every return (an all-zero slice gives +0 whatever sign the receiver had).",
